@@ -85,8 +85,14 @@ func (cm *MemClientMgr) Add(cc *ClientConn) {
 	cm.mu.Lock()
 	defer cm.mu.Unlock()
 
-	cm.nextClientID.Add(1)
-	binary.BigEndian.PutUint16(cc.ID[:], uint16(cm.nextClientID.Load()))
+	// The wire ID is the low 16 bits of the counter, so it wraps after 65535 connections.
+	// Skip IDs that are still held by a connected client so a new connection never replaces a live one.
+	for {
+		binary.BigEndian.PutUint16(cc.ID[:], uint16(cm.nextClientID.Add(1)))
+		if _, inUse := cm.clients[cc.ID]; !inUse {
+			break
+		}
+	}
 
 	cm.clients[cc.ID] = cc
 }
